@@ -578,6 +578,27 @@ def run_init(c) -> CaseResult:
                     res.fail(f"C08.container-untagged:{K.__name__}:{type(e).__name__}", f"{type(e).__name__}: {e} (ValueError expected)")
                     continue
                 res.fail(f"C08.container-untagged:{K.__name__}:accepted", "container accepted an untagged nn.Linear")
+        # two fresh instances with the same arguments own separate storage, and training one leaves later instances unit-scaled
+        if kind in ("Linear", "LinearReadout", "Conv1d", "Embedding", "LayerNorm", "RMSNorm", "MLP", "MHSA"):
+            mk = {"Linear": lambda: uu.Linear(c["a"], c["b"], bias=True), "LinearReadout": lambda: uu.LinearReadout(c["a"], c["b"], bias=True),
+                  "Conv1d": lambda: uu.Conv1d(c["a"], c["b"], c["k"], bias=True), "Embedding": lambda: uu.Embedding(c["a"] + 1, c["b"]),
+                  "LayerNorm": lambda: uu.LayerNorm(c["a"] + 1, elementwise_affine=True), "RMSNorm": lambda: uu.RMSNorm(c["a"] + 1, elementwise_affine=True),
+                  "MLP": lambda: uu.MLP(max(1, c["a"] // 8)), "MHSA": lambda: uu.MHSA(c["heads"] * 2, c["heads"], is_causal=False)}[kind]
+            m1, m2 = mk(), mk()
+            ptrs = {p.data_ptr() for p in m1.parameters() if p.numel()}
+            if any(p.data_ptr() in ptrs for p in m2.parameters() if p.numel()):
+                res.fail(f"C08.instances-share-storage:{kind}", "two freshly constructed instances share parameter storage")
+            with torch.no_grad():
+                for p in m1.parameters():
+                    p.add_(3.0)          # an optimiser step on the first instance ...
+            m3 = mk()                    # ... must not show in an instance constructed afterwards
+            for n_, p in m3.named_parameters():
+                if n_.endswith("bias") and bool((p != 0).any()):
+                    res.fail(f"C08.init.bias-nonzero:{kind}", "bias of an instance constructed after another one was updated is not zero")
+                if kind in ("LayerNorm", "RMSNorm") and n_.endswith("weight") and bool((p != 1).any()):
+                    res.fail(f"C08.init.norm-gain:{kind}", "gain of an instance constructed after another one was updated is not 1")
+                if kind not in ("LayerNorm", "RMSNorm") and n_.endswith("weight") and p.numel() >= 256 and abs(p.mean().item()) > 0.5:
+                    res.fail(f"C08.init.mean:{kind}", "weights of an instance constructed after another one was updated are not zero-mean")
     except Exception as e:  # noqa: BLE001
         res.fail(exc_bucket(f"C08.init.raises:{kind}", e), f"{type(e).__name__}: {e}")
     res.nontrivial = True
